@@ -10,7 +10,9 @@ Record odoc := mkD { d_start : bytes; d_end : bytes; d_esize : N; d_size : N; d_
 
 (* one observed table: document, full scans (fresh / re-opened from the document; None = error), checksum of the raw
    file bytes (0 = not captured; terms with the raw bytes themselves are too slow to load) *)
-Record otable := mkOT { ot_doc : odoc; ot_scan : option (list entry); ot_rscan : option (list entry); ot_cks : N }.
+(* ot_rdoc = Document() of the table re-opened from the descriptor that went through json.Marshal / json.Unmarshal
+   (the checkpoint file encoding) *)
+Record otable := mkOT { ot_doc : odoc; ot_rdoc : odoc; ot_scan : option (list entry); ot_rscan : option (list entry); ot_cks : N }.
 
 (* a 60-bit shift/xor checksum (no multiplication: cheap under vm_compute), same arithmetic as the engine's cksum *)
 Definition cksum (b : bytes) : N :=
@@ -18,7 +20,8 @@ Definition cksum (b : bytes) : N :=
   fold_left (fun a x => N.land (N.lxor (N.lxor (N.shiftl a 7) (N.shiftr a 3)) (a + x + 1)) m) b 7 + 1.
 
 (* a point lookup on table [lk_t]: fresh and re-opened results *)
-Record olookup := mkL { lk_t : N; lk_key : bytes; lk_fresh : get_res; lk_reopen : get_res }.
+(* lk_fin / lk_rin = RangeContainsKey on the fresh / re-opened table *)
+Record olookup := mkL { lk_t : N; lk_key : bytes; lk_fresh : get_res; lk_reopen : get_res; lk_fin : bool; lk_rin : bool }.
 (* a prefix scan over all tables of the run in order, concatenated *)
 Record oscan := mkS { sc_prefix : bytes; sc_fresh : option (list entry); sc_reopen : option (list entry) }.
 (* the real bloom package on the run's keys: queried key, MightHave on the filter, MightHave after Encode/Decode *)
@@ -74,14 +77,17 @@ Definition scan_of (t : otable) : list entry := match ot_scan t with Some l => l
 
 (* spec: ranges of consecutive tables are disjoint and ascending, and each document's range is exactly the
    first/last key read back from the table *)
-Fixpoint ranges_ascending (ts : list otable) : bool :=
-  match ts with
+Fixpoint ranges_ascending (docs : list odoc) : bool :=
+  match docs with
   | [] => true
-  | t :: r => bleb (d_start (ot_doc t)) (d_end (ot_doc t)) &&
-              match r with [] => true | t' :: _ => bltb (d_end (ot_doc t)) (d_start (ot_doc t')) && ranges_ascending r end
+  | d :: r => bleb (d_start d) (d_end d) &&
+              match r with [] => true | d' :: _ => bltb (d_end d) (d_start d') && ranges_ascending r end
   end.
-Definition range_is_first_last (t : otable) : bool :=
-  bytes_eqb (d_start (ot_doc t)) (first_key (scan_of t)) && bytes_eqb (d_end (ot_doc t)) (last_key (scan_of t)).
+Definition range_is_first_last (d : odoc) (scan : option (list entry)) : bool :=
+  let l := match scan with Some l => l | None => [] end in
+  bytes_eqb (d_start d) (first_key l) && bytes_eqb (d_end d) (last_key l).
+Definition rscan_of (t : otable) : list entry := match ot_rscan t with Some l => l | None => [] end.
+Definition in_range (l : list entry) (k : bytes) : bool := bleb (first_key l) k && bleb k (last_key l).
 
 (* spec: the size rule of WriteRun in FlushSize units: a table is cut at the first entry that reaches the target;
    the tail is merged into the last table as long as it stays below 1.5 x target *)
@@ -107,7 +113,10 @@ Definition check_lookup_spec (ts : list otable) (l : olookup) : list N :=
   | None => [9]
   | Some t =>
       let want := get_spec (scan_of t) (lk_key l) in
-      flag (get_res_eqb (lk_fresh l) want) 102 ++ flag (get_res_eqb (lk_reopen l) want) 103
+      flag (get_res_eqb (lk_fresh l) want) 102 ++ flag (get_res_eqb (lk_reopen l) want) 103 ++
+      (* the table's range holds a key iff it lies between the table's first and last key *)
+      flag (Bool.eqb (lk_fin l) (in_range (scan_of t) (lk_key l))) 107 ++
+      flag (Bool.eqb (lk_rin l) (in_range (rscan_of t) (lk_key l))) 111
   end.
 
 Definition check_lookup_model (mts : list table) (l : olookup) : list N :=
@@ -137,7 +146,7 @@ Definition check_tab (deep : bool) (es : list entry) (target : N) (ts : list ota
   let ochunks := map scan_of ts in
   (* --- model --- *)
   flag (list_eqb Nat.eqb (map (@length _) chunks) (map (@length _) ochunks)) 1 ++
-  flag (all2 (fun t ot => doc_matches deep t (ot_doc ot)) mts ts) 2 ++
+  flag (all2 (fun t ot => doc_matches deep t (ot_doc ot) && doc_matches deep (reopen t) (ot_rdoc ot)) mts ts) 2 ++
   (if deep then
      flag (all2 (fun t ot => (ot_cks ot =? 0) || (cksum (t_file t) =? ot_cks ot)) mts ts) 3 ++
      flat_map (check_lookup_model mts) lookups ++
@@ -161,7 +170,11 @@ Definition check_tab (deep : bool) (es : list entry) (target : N) (ts : list ota
   flag (forallb (fun s => oentries_eqb (sc_reopen s) (Some (scan_spec es (sc_prefix s)))) scans) 105 ++
   (* split tables: none empty unless the run is empty, ranges = first/last key, disjoint and ascending *)
   flag (match es with [] => true | _ => forallb (fun c => negb (Nat.eqb (length c) 0)) ochunks end) 106 ++
-  flag (forallb range_is_first_last ts && (match es with [] => true | _ => ranges_ascending ts end)) 107 ++
+  flag (forallb (fun t => range_is_first_last (ot_doc t) (ot_scan t)) ts &&
+        (match es with [] => true | _ => ranges_ascending (map ot_doc ts) end)) 107 ++
+  (* the same after the descriptors went through the JSON checkpoint encoding and the tables were re-opened *)
+  flag (forallb (fun t => range_is_first_last (ot_rdoc t) (ot_rscan t)) ts &&
+        (match es with [] => true | _ => ranges_ascending (map ot_rdoc ts) end)) 111 ++
   (* size rule *)
   flag ((target =? 0) || size_rule target (split_by (map (@length _) ochunks) es)) 108 ++
   (* the bloom filter never denies a present key (before and after an encode/decode round trip) *)
